@@ -6,6 +6,7 @@ package engx
 
 import (
 	"context"
+	"errors"
 	"fmt"
 	"math/big"
 	"sync"
@@ -35,6 +36,15 @@ type Store struct {
 	S *Sched
 	// Gen is the commander generation this store instance belongs to
 	Gen int
+	// ReadFail: kinds of read ("ik", "ref", "tx", "balance", "account") that fail with a transient, non-not-found error
+	ReadFail map[string]bool
+}
+
+// ErrTransient is what an injected read failure returns (a connection-level error: not a not-found error)
+var ErrTransient = errors.New("verif: injected transient store read failure (connection reset)")
+
+func (s *Store) readFails(kind string) bool {
+	return (s.ReadFail != nil && s.ReadFail[kind]) || (s.S != nil && s.S.ReadFail != nil && s.S.ReadFail[kind])
 }
 
 func txOf(l *ledger.ChainedLog) *ledger.Transaction {
@@ -48,6 +58,9 @@ func txOf(l *ledger.ChainedLog) *ledger.Transaction {
 }
 
 func (s *Store) GetBalance(ctx context.Context, address, asset string) (*big.Int, error) {
+	if s.readFails("balance") {
+		return nil, ErrTransient
+	}
 	b := new(big.Int)
 	for _, l := range s.D.snapshot() {
 		if tx := txOf(l); tx != nil {
@@ -71,6 +84,9 @@ func (s *Store) GetBalance(ctx context.Context, address, asset string) (*big.Int
 }
 
 func (s *Store) GetAccount(ctx context.Context, address string) (*ledger.Account, error) {
+	if s.readFails("account") {
+		return nil, ErrTransient
+	}
 	acc := &ledger.Account{Address: address, Metadata: metadata.Metadata{}}
 	for _, l := range s.D.snapshot() {
 		switch p := l.Data.(type) {
@@ -116,6 +132,9 @@ func (s *Store) GetLastTransaction(ctx context.Context) (*ledger.ExpandedTransac
 }
 
 func (s *Store) ReadLogWithIdempotencyKey(ctx context.Context, key string) (*ledger.ChainedLog, error) {
+	if s.readFails("ik") {
+		return nil, ErrTransient
+	}
 	for _, l := range s.D.snapshot() {
 		if l.IdempotencyKey == key {
 			return l, nil
@@ -125,6 +144,9 @@ func (s *Store) ReadLogWithIdempotencyKey(ctx context.Context, key string) (*led
 }
 
 func (s *Store) GetTransactionByReference(ctx context.Context, ref string) (*ledger.ExpandedTransaction, error) {
+	if s.readFails("ref") {
+		return nil, ErrTransient
+	}
 	logs := s.D.snapshot()
 	for _, l := range logs {
 		if tx := txOf(l); tx != nil && tx.Reference == ref {
@@ -141,6 +163,9 @@ func (s *Store) GetTransactionByReference(ctx context.Context, ref string) (*led
 }
 
 func (s *Store) GetTransaction(ctx context.Context, txID *big.Int) (*ledger.Transaction, error) {
+	if s.readFails("tx") {
+		return nil, ErrTransient
+	}
 	logs := s.D.snapshot()
 	var found *ledger.Transaction
 	for _, l := range logs {
